@@ -1146,7 +1146,7 @@ def run(ctx, replay=None):
     while done < len(items):
         now = time.time()
         if done == 0:
-            n = min(len(items), ctx.n(52, 256))
+            n = min(len(items), ctx.n(44, 256))
         else:
             room = int((deadline - now) / ((now - t0) / done))
             if room < 16:
